@@ -82,6 +82,7 @@ type Ctx struct {
 	unwind      int
 	stepLimit   int
 	mapOrder    int // 0 insertion, 1 reverse
+	selectOrder int // which ready select case is taken: 0 first in source order, 1 last
 	checkAlts   bool
 	eagerBranch bool
 	verbose     bool
